@@ -65,11 +65,16 @@ class Rec:
         self.main_lines = 0
         self.logs: list[logging.LogRecord] = []
         self.in_run = False
+        self.sim = None
 
     def ev(self, *e):
+        if self.sim is not None and self.sim.dead:
+            return      # threads unwinding after the run is over record nothing
         self.events.append(e)
 
     def fired(self, kind, n=1):
+        if self.sim is not None and self.sim.dead:
+            return
         self.fault_counts[kind] = self.fault_counts.get(kind, 0) + n
 
 
@@ -565,6 +570,7 @@ def execute(sc: dict, ch: Choices, storage_dir: Optional[str], storage_obj=None,
         simos = SimOS(sim, cpu_count=sc.get('cpu_count', 2), spawn_boot_steps=sc.get('boot_steps', 2),
                       kill_flush=bool(sc.get('terminate_flush', False)))
         rec = Rec(sim.events, sim.fault_counts)
+        rec.sim = sim
     else:
         rec = Rec()
     probe = RunProbe(rec, sc, sim, s1=(backend == 'sim'))
